@@ -127,7 +127,7 @@ func (p *Program) verifyFunc(fn *ssa.Function, ct *Contract, sweepOnly bool) (re
 	if ct != nil && ct.Trusted {
 		// the body of a trusted function is not executed; what can be decided on its code alone still is
 		for _, g := range ct.Guards {
-			if g.Kind == "nocall" {
+			if g.Kind == "nocall" || g.Kind == "noread" {
 				p.noCallObligation(vc, fn, key, g)
 			}
 		}
@@ -177,7 +177,7 @@ func (p *Program) verifyFunc(fn *ssa.Function, ct *Contract, sweepOnly bool) (re
 			if g.Kind == "sort" {
 				continue
 			}
-			if g.Kind == "nocall" {
+			if g.Kind == "nocall" || g.Kind == "noread" {
 				// "guard nocall F: false": the function (with its function literals) contains no call of F - decided on the code
 				p.noCallObligation(vc, fn, key, g)
 				continue
@@ -564,11 +564,12 @@ func (p *Program) findFunction(ct *Contract) *ssa.Function {
 	if pk == nil {
 		return nil
 	}
-	if ct.Recv == "" && strings.Contains(ct.Name, "$") {
-		// a function literal, named as go/ssa names it: <enclosing function or method>$<n>
+	if strings.Contains(ct.Name, "$") {
+		// a function literal, named as go/ssa names it, with the receiver of the enclosing method if it has one:
+		// func match$1(key, val)  /  func (a *TemporalFactStoreAdapter) GetFacts$1(tf)
 		var found *ssa.Function
 		for g := range ssautil.AllFunctions(p.ssaProg) {
-			if g.Name() == ct.Name && g.Parent() != nil && fnPkg(g) == pk.Pkg && len(g.Blocks) > 0 {
+			if g.Parent() != nil && fnPkg(g) == pk.Pkg && len(g.Blocks) > 0 && funcKey(g) == ct.Key() {
 				if found == nil || g.Pos() < found.Pos() {
 					found = g
 				}
@@ -628,12 +629,34 @@ func describeObligation(o *Obligation) string {
 }
 
 func (p *Program) noCallObligation(vc *VC, fn *ssa.Function, key string, g *Guard) {
-	site := noCallSite(fn, g.Name)
-	goal, txt := "true", "the function never calls "+g.Name
-	if site != "" {
-		goal, txt = "false", "the function must not call "+g.Name+", but does ("+site+")"
+	site, verb := noCallSite(fn, g.Name), "call"
+	if g.Kind == "noread" {
+		// "guard noread G: false": neither the function nor its literals mention the package-level variable G
+		site, verb = noGlobalSite(fn, g.Name), "mention the package-level variable"
 	}
-	vc.oblige(&Obligation{Name: fmt.Sprintf("%s#guard(nocall %s)", key, g.Name), Kind: "static", PC: "true", Goal: goal, Text: txt, Fn: key})
+	goal, txt := "true", "the function does not "+verb+" "+g.Name
+	if site != "" {
+		goal, txt = "false", "the function must not "+verb+" "+g.Name+", but does ("+site+")"
+	}
+	vc.oblige(&Obligation{Name: fmt.Sprintf("%s#guard(%s %s)", key, g.Kind, g.Name), Kind: "static", PC: "true", Goal: goal, Text: txt, Fn: key})
+}
+
+func noGlobalSite(fn *ssa.Function, name string) string {
+	for _, b := range fn.Blocks {
+		for _, in := range b.Instrs {
+			for _, op := range in.Operands(nil) {
+				if gl, ok := (*op).(*ssa.Global); ok && gl.Name() == name {
+					return fn.Prog.Fset.Position(in.Pos()).String()
+				}
+			}
+		}
+	}
+	for _, af := range fn.AnonFuncs {
+		if s := noGlobalSite(af, name); s != "" {
+			return s
+		}
+	}
+	return ""
 }
 
 // noCallSite: a description of the first call of a function or method called name inside fn or one of its function
